@@ -1040,6 +1040,11 @@ def standalone(case, v):
         "    print('Selector(\"a,,\") did not raise (in a fresh process it raises InvalidModificationErr)')",
         'except xml.dom.DOMException as e:',
         "    print('Selector(\"a,,\") raises', type(e).__name__, 'as in a fresh process')",
+        "print(cssutils.parseString('x{left:0}').cssText, '<- after the history; in a fresh process with the same preferences set:')",
+        "import subprocess, sys",
+        "print(subprocess.run([sys.executable, '-c', 'import cssutils; ' + "
+        + repr('; '.join(ln for n in hist if n == 'set-prefs(custom)' for ln in SRC[n].split('\n')) or 'pass')
+        + " + '; print(cssutils.parseString(\"x{left:0}\").cssText)'], capture_output=True, text=True).stdout)",
         f'# signature: {v["signature"]}',
     ]
     return '\n'.join(lines) + '\n'
